@@ -196,3 +196,37 @@ SPEC_ENTRY = {'examples': ['Example C16_hdr_size_examples :\n'
                'can_send = "a header+frame chain fits" computed from the outstanding chains (two free descriptors, or one with indirect descriptors in a table '
                "of >= 2) = the queue's own capacity test for 2 buffers; when true the 1-buffer (empty frame) send fits too")],
  'title': 'Network frames pass unmodified; receive buffers are never lost or duplicated'}
+
+# ---- the monitors evaluated on the IMPLEMENTATION's observations, tied to the statements they stand for (Proofs/NetMonProofs.v):
+# ---- "meaning" = what a true verdict implies, for any input list; "holds_of_model" = no false alarm on code that behaves like the model
+SPEC_ENTRY['imports'] += [m for m in ['Extract.QueueIO', 'Extract.NetIO', 'Proofs.NetMonProofs'] if m not in SPEC_ENTRY['imports']]
+SPEC_ENTRY['theorems'] += [
+  ('C16_monitor_1650_meaning', 'Proofs/NetMonProofs.v', 'mon1650_meaning', 'a [1] of 1650 on any list: a transmit line; no writable / empty element, lengths sum to the bytes read, wire = h zero bytes ++ exactly the frame, h = 12 with VERSION_1 or MRG_RXBUF else 10'),
+  ('C16_monitor_1650_exactly', 'Proofs/NetMonProofs.v', 'mon1650_line_iff', 'on a line of the layout 1650 demands exactly that (no constraint on number / cut of descriptors)'),
+  ('C16_monitor_1650_holds_of_model', 'Proofs/NetMonProofs.v', 'mon1650_holds_of_model', 'every neg, every frame: the line of send_payload passes'),
+  ('C16_monitor_1650_holds_of_model_raw', 'Proofs/NetMonProofs.v', 'mon1650_holds_of_model_raw', 'buffer after fill_buffer_header as one descriptor passes'),
+  ('C16_monitor_1651_meaning', 'Proofs/NetMonProofs.v', 'mon1651_meaning', 'a [1] of 1651: h <= used <= written, hdr = h, packet_len = used - h, written = hb ++ packet ++ tail with |hb| = h'),
+  ('C16_monitor_1651_exactly', 'Proofs/NetMonProofs.v', 'mon1651_line_iff', '... and nothing else'),
+  ('C16_monitor_1651_short_completion', 'Proofs/NetMonProofs.v', 'mon1651_rejects_short_completion', 'used length below the header: no line is accepted'),
+  ('C16_monitor_1651_holds_of_model', 'Proofs/NetMonProofs.v', 'mon1651_holds_of_model', 'raw receive_complete Ok + rx_packet, device reporting what it wrote'),
+  ('C16_monitor_1651_holds_of_model_vnet', 'Proofs/NetMonProofs.v', 'mon1651_holds_of_model_vnet', 'VirtIONet::receive in every state of every history'),
+  ('C16_monitor_1652_meaning', 'Proofs/NetMonProofs.v', 'mon1652_meaning', 'a [1] of 1652: ownership line; NoDup, i < size iff present, counts sum to size, each identity in exactly one of posted / pending / owned'),
+  ('C16_monitor_1652_exactly', 'Proofs/NetMonProofs.v', 'mon1652_line_iff', 'equivalence'),
+  ('C16_monitor_1652_holds_of_model', 'Proofs/NetMonProofs.v', 'mon1652_holds_of_model', 'NetInv: any split of the slot buffers into posted / pending passes'),
+  ('C16_monitor_1653_meaning', 'Proofs/NetMonProofs.v', 'mon1653_meaning', 'iff: can_recv <-> used idx <> consumed mod 2^16; can_send <-> 2 free descriptors (indirect: one free and size >= 2)'),
+  ('C16_monitor_1653_holds_of_model', 'Proofs/NetMonProofs.v', 'mon1653_holds_of_model', 'raw driver, both queues reachable'),
+  ('C16_monitor_1653_holds_of_model_vnet', 'Proofs/NetMonProofs.v', 'mon1653_holds_of_model_vnet', 'can_recv / can_send of VirtIONet under NetInv'),
+  ('C16_monitor_1654_meaning', 'Proofs/NetMonProofs.v', 'mon1654_meaning', 'iff: [0; code]'),
+  ('C16_monitor_1654_holds_of_model', 'Proofs/NetMonProofs.v', 'mon1654_holds_of_model', 'recycle of an owned buffer (C16_recycle)'),
+  ('C16_monitor_1655_meaning', 'Proofs/NetMonProofs.v', 'mon1655_meaning', 'iff: h = 12 with bit 32 or 15 else 10'),
+  ('C16_monitor_1655_holds_of_model', 'Proofs/NetMonProofs.v', 'mon1655_holds_of_model', 'hdr_size (legacy_header neg) for every neg'),
+  ('C16_monitor_1655_holds_of_model_fill', 'Proofs/NetMonProofs.v', 'mon1655_holds_of_model_fill', 'as returned by fill_buffer_header'),
+  ('C16_monitor_1655_holds_of_model_rx', 'Proofs/NetMonProofs.v', 'mon1655_holds_of_model_rx', 'as returned by receive_complete'),
+  ('C16_monitor_1656_meaning', 'Proofs/NetMonProofs.v', 'mon1656_meaning', 'iff: pending -> Ok with the oldest pending buffer; none pending -> NotReady'),
+  ('C16_monitor_1656_holds_of_model', 'Proofs/NetMonProofs.v', 'mon1656_holds_of_model', 'vnet_receive under NetInv, conforming device'),
+  ('C16_monitor_1657_meaning', 'Proofs/NetMonProofs.v', 'mon1657_meaning', 'iff: Ok exactly when the presented token is the next completion (non-Ok of ANY class otherwise)'),
+  ('C16_monitor_1657_holds_of_model_rx', 'Proofs/NetMonProofs.v', 'mon1657_holds_of_model_rx', 'receive_complete, reachable queue, lengths >= header'),
+  ('C16_monitor_1657_holds_of_model_tx', 'Proofs/NetMonProofs.v', 'mon1657_holds_of_model_tx', 'transmit_complete, reachable queue'),
+  ('C16_monitor_1658_meaning', 'Proofs/NetMonProofs.v', 'mon1658_meaning', 'iff: accepted bits are offered ones, bit 15 not accepted'),
+  ('C16_monitor_1658_holds_of_model', 'Proofs/NetMonProofs.v', 'mon1658_holds_of_model', 'net_negotiate devf for every devf'),
+]
